@@ -152,6 +152,129 @@ theorem groupCheck_sound (T : Tabs) (txt : List Nat) (r : Rx) (i : Nat) (P : Lis
     simp only [hl] at ha
     exact List.all_eq_true.mp ha _ (langOf_complete T a _ hmat L hl)
 
+/-! ### the same over a quotient alphabet
+`\d` has some 650 code points; a four-digit group (`year`) has too many words for the kernel.  All that matters to a predicate on
+the *number* is the decimal value of each digit, so the language is enumerated modulo a map `q` on code points: every word of
+the language, mapped through `q`, is in `langOfQ q` (for any `q`); `P` is then checked on the representatives and transported
+back by a lemma about `P` and `q` (`intInRange_canon` for the numeric ranges). -/
+
+def dedupNat : List Nat → List Nat
+  | [] => []
+  | x :: xs => if (dedupNat xs).contains x then dedupNat xs else x :: dedupNat xs
+
+theorem mem_dedupNat (x : Nat) : ∀ l : List Nat, x ∈ l → x ∈ dedupNat l
+  | [], h => by cases h
+  | y :: ys, h => by
+    simp only [dedupNat]
+    rcases List.mem_cons.mp h with rfl | h'
+    · split
+      · rename_i hc; simpa using hc
+      · exact List.mem_cons_self
+    · split
+      · exact mem_dedupNat x ys h'
+      · exact List.mem_cons_of_mem _ (mem_dedupNat x ys h')
+
+def langOfQ (T : Tabs) (q : Nat → Nat) : Rx → Option (List (List Nat))
+  | .eps => some [[]]
+  | .lit alts => some ((dedupNat (alts.map q)).map fun x => [x])
+  | .cls false items => some ((dedupNat ((items.flatMap (enumCI T)).map q)).map fun x => [x])
+  | .cls true _ => none
+  | .seq a b => match langOfQ T q a, langOfQ T q b with
+    | some la, some lb => some (la.flatMap fun s => lb.map (s ++ ·))
+    | _, _ => none
+  | .alt a b => match langOfQ T q a, langOfQ T q b with
+    | some la, some lb => some (la ++ lb)
+    | _, _ => none
+  | .opt a => match langOfQ T q a with | some la => some ([] :: la) | none => none
+  | .star _ => none
+  | .plus _ => none
+  | .grp _ a => langOfQ T q a
+  | .nla _ => some [[]]
+  | .nlb _ => some [[]]
+  | .wordb => some [[]]
+
+theorem langOfQ_complete (T : Tabs) (q : Nat → Nat) : ∀ (r : Rx) (s : List Nat), Matches T r s → ∀ L, langOfQ T q r = some L → s.map q ∈ L := by
+  intro r s hm
+  induction hm with
+  | eps => intro L h; simp [langOfQ] at h; subst h; simp
+  | @lit alts x hx =>
+    intro L h; simp [langOfQ] at h; subst h
+    simp only [List.map_cons, List.map_nil, List.mem_map]
+    exact ⟨q x, mem_dedupNat _ _ (List.mem_map.mpr ⟨x, by simpa using hx, rfl⟩), rfl⟩
+  | @cls neg items x hx =>
+    intro L h
+    cases neg with
+    | true => simp [langOfQ] at h
+    | false =>
+      simp [langOfQ] at h; subst h
+      simp only [clsMatch, bne_iff_ne, ne_eq, Bool.not_eq_false, List.any_eq_true] at hx
+      obtain ⟨it, hit, hci⟩ := hx
+      simp only [List.map_cons, List.map_nil, List.mem_map]
+      exact ⟨q x, mem_dedupNat _ _ (List.mem_map.mpr ⟨x, List.mem_flatMap.mpr ⟨it, hit, mem_enumCI T it x hci⟩, rfl⟩), rfl⟩
+  | @seq a b s t _ _ iha ihb =>
+    intro L h
+    simp only [langOfQ] at h
+    cases ha : langOfQ T q a with
+    | none => simp [ha] at h
+    | some la =>
+      cases hb : langOfQ T q b with
+      | none => simp [ha, hb] at h
+      | some lb =>
+        simp [ha, hb] at h; subst h
+        simp only [List.map_append, List.mem_flatMap, List.mem_map]
+        exact ⟨s.map q, iha la ha, t.map q, ihb lb hb, rfl⟩
+  | @altL a b s _ iha =>
+    intro L h
+    simp only [langOfQ] at h
+    cases ha : langOfQ T q a with
+    | none => simp [ha] at h
+    | some la =>
+      cases hb : langOfQ T q b with
+      | none => simp [ha, hb] at h
+      | some lb => simp [ha, hb] at h; subst h; exact List.mem_append_left _ (iha la ha)
+  | @altR a b s _ ihb =>
+    intro L h
+    simp only [langOfQ] at h
+    cases ha : langOfQ T q a with
+    | none => simp [ha] at h
+    | some la =>
+      cases hb : langOfQ T q b with
+      | none => simp [ha, hb] at h
+      | some lb => simp [ha, hb] at h; subst h; exact List.mem_append_right _ (ihb lb hb)
+  | @optNone a =>
+    intro L h
+    simp only [langOfQ] at h
+    cases ha : langOfQ T q a with
+    | none => simp [ha] at h
+    | some la => simp [ha] at h; subst h; simp
+  | @optSome a s _ iha =>
+    intro L h
+    simp only [langOfQ] at h
+    cases ha : langOfQ T q a with
+    | none => simp [ha] at h
+    | some la => simp [ha] at h; subst h; exact List.mem_cons_of_mem _ (iha la ha)
+  | starNil => intro L h; simp [langOfQ] at h
+  | starCons _ _ _ _ => intro L h; simp [langOfQ] at h
+  | plus _ _ _ _ => intro L h; simp [langOfQ] at h
+  | grp _ ih => intro L h; exact ih L (by simpa [langOfQ] using h)
+  | nla => intro L h; simp [langOfQ] at h; subst h; simp
+  | nlb => intro L h; simp [langOfQ] at h; subst h; simp
+  | wordb => intro L h; simp [langOfQ] at h; subst h; simp
+
+/-- checker: every representative of the language of every body of group `i` satisfies `P` -/
+def groupCheckQ (T : Tabs) (q : Nat → Nat) (r : Rx) (i : Nat) (P : List Nat → Bool) : Bool :=
+  (bodiesOf i r).all fun a => match langOfQ T q a with | some L => L.all P | none => false
+
+theorem groupCheckQ_sound (T : Tabs) (q : Nat → Nat) (txt : List Nat) (r : Rx) (i : Nat) (P : List Nat → Bool) (hchk : groupCheckQ T q r i P = true)
+    (cs : Caps) (hcs : CapsOK T txt r cs) (s e : Nat) (hm : (i, s, e) ∈ cs) : P (((txt.drop s).take (e - s)).map q) = true := by
+  obtain ⟨a, hg, _, hmat⟩ := hcs (i, s, e) hm
+  have ha := List.all_eq_true.mp hchk a (mem_bodiesOf i a r hg)
+  cases hl : langOfQ T q a with
+  | none => simp [hl] at ha
+  | some L =>
+    simp only [hl] at ha
+    exact List.all_eq_true.mp ha _ (langOfQ_complete T q a _ hmat L hl)
+
 /-- captures of every match reported by `findAll` are sound w.r.t. the text -/
 theorem findAllFrom_caps (T : Tabs) (txt : List Nat) (r : Rx) : ∀ (rest : List Nat) (prev : Option Nat) (pos : Nat),
     rest = txt.drop pos → pos ≤ txt.length → ∀ m ∈ findAllFrom T r prev rest pos, CapsOK T txt r m.2.2 := by
@@ -192,5 +315,44 @@ def intInRange (lo hi : Int) (w : List Nat) : Bool :=
   match pyInt w with
   | .ok n => decide (lo ≤ n) && decide (n ≤ hi)
   | .error _ => w.any fun c => inRanges Gen.intUnknown c
+
+
+/-- the ASCII digit with the same decimal value (`int()` of this interpreter, generated table); other code points stay -/
+def canonDigit (c : Nat) : Nat := match digitVal c with | some v => 48 + v | none => c
+
+theorem digitVal_ascii : ∀ v ∈ List.range 10, digitVal (48 + v) = some v ∧ inRanges Gen.intUnknown (48 + v) = false := by decide +kernel
+
+theorem digitVal_lt (c v : Nat) (h : digitVal c = some v) : v < 10 := by
+  unfold digitVal at h
+  split at h
+  · simp only [Option.some.injEq] at h; omega
+  · cases h
+
+theorem digitVal_canon (c : Nat) : digitVal (canonDigit c) = digitVal c := by
+  unfold canonDigit
+  cases h : digitVal c with
+  | none => simp only [h]
+  | some v => simp only; exact (digitVal_ascii v (by simp; exact digitVal_lt c v h)).1
+
+theorem pyInt_canon (w : List Nat) : pyInt (w.map canonDigit) = pyInt w := by
+  unfold pyInt
+  simp only [List.isEmpty_map, List.foldlM_map, digitVal_canon]
+
+theorem intInRange_canon (lo hi : Int) (w : List Nat) (h : intInRange lo hi (w.map canonDigit) = true) : intInRange lo hi w = true := by
+  unfold intInRange at h ⊢
+  rw [pyInt_canon] at h
+  cases hp : pyInt w with
+  | ok n => simpa [hp] using h
+  | error e =>
+    simp only [hp, List.any_map, List.any_eq_true, Function.comp] at h ⊢
+    obtain ⟨c, hc, hu⟩ := h
+    refine ⟨c, hc, ?_⟩
+    unfold canonDigit at hu
+    cases hd : digitVal c with
+    | none => simpa [hd] using hu
+    | some v =>
+      simp only [hd] at hu
+      rw [(digitVal_ascii v (by simp; exact digitVal_lt c v hd)).2] at hu
+      cases hu
 
 end QuickAdd
